@@ -185,6 +185,8 @@ class TrX(pyz.Tr):
                     return "(pv_cmp_lt %s %s)" % (a, b), "RB"
                 if ta == "V" and tb == "Z" and isinstance(op, ast.Gt):
                     return "(pv_cmp_gt_int %s %s)" % (a, b), "RB"
+                if ta == "V" and tb == "Z" and isinstance(op, ast.LtE):
+                    return "(rmap negb (pv_cmp_gt_int %s %s))" % (a, b), "RB"
         if isinstance(e, ast.ListComp) and ast.unparse(e) == "[name for name in names if '__' in name]":
             t, ty = self.expr(ast.Name(id="names", ctx=ast.Load()), env)
             self.need(ty, "NL", e)
@@ -477,6 +479,8 @@ class TrX(pyz.Tr):
                 % (x, inner, src, body), bty
         if isinstance(s, ast.Raise) and self.kind == "loopchk":
             return "Err", "RU"
+        if isinstance(s, ast.Continue) and self.kind == "loopchk":
+            return "(Ok tt)", "RU"          # this element passes; the rest of the body is skipped
         if isinstance(s, ast.Return) and self.kind == "inl":
             return super().block(stmts, env)
         if isinstance(s, ast.Return):
@@ -485,7 +489,10 @@ class TrX(pyz.Tr):
             if self.kind == "rfun" and self.cfg.get("ret") == "YX" and isinstance(s.value, ast.Tuple) \
                     and len(s.value.elts) == 2:
                 a, ta = self.expr(s.value.elts[0], env)
-                b, tb = self.expr(s.value.elts[1], env)
+                if isinstance(s.value.elts[1], ast.Constant) and s.value.elts[1].value is None:
+                    b, tb = "None", "OS"
+                else:
+                    b, tb = self.expr(s.value.elts[1], env)
                 self.need(ta, "S", s)
                 if tb == "S":
                     b, tb = "(Some %s)" % b, "OS"
@@ -555,7 +562,7 @@ def h_len(tr, e, env):
         tr.need(ty, "NL", e)
         return "(n_distinct %s)" % t, "Z"
     t, ty = tr.expr(a, env)
-    f = {"IX": "(ilen %s)", "S": "(s_len %s)", "NL": "(n_names %s)", "FCS": "(fcs_len %s)",
+    f = {"IX": "(ix_len %s)", "S": "(s_len %s)", "NL": "(n_names %s)", "FCS": "(fcs_len %s)",
          "L": "(Z.of_nat (length %s))"}.get(ty)
     if f is None:
         raise Unsupported("len of " + ty)
@@ -563,12 +570,30 @@ def h_len(tr, e, env):
 
 
 def h_tuple(tr, e, env):
-    if len(e.args) == 1 and ast.unparse(e.args[0]) == \
-            "filter(lambda x: x is not np.ndarray, VALID_DATA_TYPES)":
-        t, ty = tr.expr(ast.Name(id="VALID_DATA_TYPES", ctx=ast.Load()), env)
-        tr.need(ty, "TYS", e)
-        return "(tys_without TyNdarray %s)" % t, "TYS"
-    raise Unsupported("tuple(...) shape")
+    """tuple(<the members of a tuple of container types except one>), written with filter(lambda)
+    or with a generator expression / comprehension over the same tuple."""
+    if len(e.args) != 1 or e.keywords:
+        raise Unsupported("tuple(...) shape")
+    a = e.args[0]
+    src = var = test = None
+    if isinstance(a, ast.Call) and ast.unparse(a.func) == "filter" and len(a.args) == 2 \
+            and isinstance(a.args[0], ast.Lambda) and len(a.args[0].args.args) == 1:
+        var, test, src = a.args[0].args.args[0].arg, a.args[0].body, a.args[1]
+    elif isinstance(a, (ast.GeneratorExp, ast.ListComp)) and len(a.generators) == 1 \
+            and isinstance(a.generators[0].target, ast.Name) and len(a.generators[0].ifs) == 1 \
+            and isinstance(a.elt, ast.Name) and a.elt.id == a.generators[0].target.id:
+        var, test, src = a.elt.id, a.generators[0].ifs[0], a.generators[0].iter
+    if var is None or not (isinstance(test, ast.Compare) and len(test.ops) == 1
+                           and isinstance(test.ops[0], (ast.IsNot, ast.NotEq))
+                           and isinstance(test.left, ast.Name) and test.left.id == var):
+        raise Unsupported("tuple(...) shape")
+    dropped = {"np.ndarray": "TyNdarray", "pd.DataFrame": "TyFrame", "pd.Series": "TySeries"}.get(
+        ast.unparse(test.comparators[0]))
+    if dropped is None:
+        raise Unsupported("tuple(...) drops " + ast.unparse(test.comparators[0]))
+    t, ty = tr.expr(src, env)
+    tr.need(ty, "TYS", e)
+    return "(tys_without %s %s)" % (dropped, t), "TYS"
 
 
 def h_pd_index(tr, e, env):
@@ -613,6 +638,8 @@ def h_any(tr, e, env):
         if len(g.generators) == 1 and not g.generators[0].ifs \
                 and isinstance(g.generators[0].target, ast.Name):
             src, sty = tr.expr(g.generators[0].iter, env)
+            if sty == "NL" and ast.unparse(g.elt) == "'__' in %s" % g.generators[0].target.id:
+                return "(existsb has_dunder %s)" % src, "B"
             tr.need(sty, "MKL", e)
             x = cname(g.generators[0].target.id)
             env2 = dict(env)
